@@ -4,6 +4,7 @@ import (
 	"fmt"
 	"go/token"
 	"go/types"
+	"os"
 	"sort"
 	"strings"
 	"time"
@@ -170,20 +171,20 @@ func (x *Exec) oblige(kind, name string, guard, goal *smt.Term, pos token.Pos, t
 
 // Frame is one function activation.
 type Frame struct {
-	fn      *ssa.Function
-	act     int
-	prefix  string
-	fc      *FuncContract
-	cells   map[*ssa.Alloc]*cellKey
-	entry   *State
-	params  map[string]*Val
-	returns []*retEdge
-	loops   *loopInfo
-	depth   int
-	safety  bool
-	lets    map[string]*Val
-	paramV  []*Val
-	defers  []*ssa.Defer
+	fn        *ssa.Function
+	act       int
+	prefix    string
+	fc        *FuncContract
+	cells     map[*ssa.Alloc]*cellKey
+	entry     *State
+	params    map[string]*Val
+	returns   []*retEdge
+	loops     *loopInfo
+	depth     int
+	safety    bool
+	lets      map[string]*Val
+	paramV    []*Val
+	defers    []*ssa.Defer
 	frameSpec *frameSpec // parsed assigns/pure clause of the function under contract (root frame only)
 }
 
@@ -617,7 +618,14 @@ func (x *Exec) execLoopInvariant(fr *Frame, l *loop, spec *LoopSpec, entry []*Ed
 	r := x.execRegion(fr, l, pending, layer)
 	x.pendingInv = x.pendingInv[:len(x.pendingInv)-1]
 	// 4. preserve on back edges
-	for _, e := range r.backs {
+	for bi, e := range r.backs {
+		if os.Getenv("VERIF_DEADPATHS") != "" && x.spec == 0 && x.dry == 0 {
+			// audit mode: is this path through the loop body feasible under the
+			// invariants? (an infeasible one makes its obligations hold vacuously;
+			// legitimately dead paths exist, so this is a diagnostic, not a verdict)
+			x.covers = append(x.covers, &Obligation{Name: fmt.Sprintf("cover:deadpath(%sloop%d/back%d)", fr.prefix, l.ordinal, bi), Kind: "cover", Guard: e.cond, Goal: x.b.False, NHyps: len(x.hyps),
+				Text: "a path through the loop body is feasible under the invariants", Soft: true})
+		}
 		ce := x.loopEnvAtEdge(fr, l, e, layer)
 		for i, inv := range spec.Invariants {
 			t := x.evalBool(ce, inv)
